@@ -1,4 +1,4 @@
-(* drv_unblind.ml — C06 families: ubl (blinded output), uiss (blinded issuance) *)
+(* drv_unblind.ml — C06 families: ubl (ub_blinded output), uiss (ub_blinded issuance) *)
 open Model
 open Drv_util
 
@@ -6,7 +6,7 @@ let z_of_int i = if i = 0 then Z0 else if i > 0 then Zpos (pos_of_int i) else Zn
 let next_hn t = n_of_hex (next t)
 let next_opt t = let s = next t in if s = "!" then None else Some (bytes_of_hex s)
 
-let read_oracle t : oracle =
+let read_oracle t : ub_oracle =
   let ecdh = next_list t (fun t -> let a = next_hex t in let b = next_hex t in let r = next_opt t in ((a, b), r)) in
   let genb = next_list t (fun t -> let a = next_hex t in let b = next_hex t in let r = next_opt t in ((a, b), r)) in
   let geng = next_list t (fun t -> let a = next_hex t in let r = next_opt t in (a, r)) in
@@ -37,7 +37,7 @@ let apply_op (f : byte list array) (o : op) =
 
 let len l = Stdlib.List.length l
 
-let rc_of (tb : oracle) (u : unblinded) (out_asset : byte list) (out_value : byte list) : string =
+let rc_of (tb : ub_oracle) (u : unb_result) (out_asset : byte list) (out_value : byte list) : string =
   if len u.u_asset <> 32 || len u.u_abf <> 32 || len u.u_vbf <> 32 || len out_asset <> 33 then "na"
   else match o_asset_commitment tb u.u_asset u.u_abf with
     | Some ac when ac = out_asset ->
@@ -67,7 +67,7 @@ let cmd_ubl t =
         | None -> Error "nonce"
         | Some nonce ->
           match o_range_proof tb { ra_value = value; ra_nonce = nonce; ra_asset = asset; ra_abf = abf;
-                                   ra_vbf = fit (nat_of_int 32) vbf; ra_vcommit = vc; ra_script = script;
+                                   ra_vbf = ub_fit (nat_of_int 32) vbf; ra_vcommit = vc; ra_script = script;
                                    ra_exp = ex; ra_minbits = mb } with
           | None -> Error "proof"
           | Some proof -> Ok { bl_asset = ac; bl_value = vc; bl_nonce = nonce; bl_proof = proof } in
@@ -84,16 +84,16 @@ let cmd_ubl t =
       let head = Printf.sprintf "blind=ok ac=%s vc=%s nonce=%s proof=%s verify=%s"
           (hex_of_bytes b.bl_asset) (hex_of_bytes b.bl_value) (hex_of_bytes b.bl_nonce) (hex_of_bytes b.bl_proof) (b2s verify) in
       match r with
-      | RErr -> Printf.printf "%s res=err\n" head
-      | RPanic -> Printf.printf "%s res=panic\n" head
-      | ROk u ->
+      | UErr -> Printf.printf "%s ures=err\n" head
+      | UPanic -> Printf.printf "%s ures=panic\n" head
+      | UOk u ->
         let rc = if is_conf_out out then rc_of tb u out.o_asset out.o_value else "na" in
-        Printf.printf "%s res=ok v=%s a=%s vbf=%s abf=%s rc=%s\n" head (hex_of_n u.u_value)
+        Printf.printf "%s ures=ok v=%s a=%s vbf=%s abf=%s rc=%s\n" head (hex_of_n u.u_value)
           (hex_of_bytes u.u_asset) (hex_of_bytes u.u_vbf) (hex_of_bytes u.u_abf) rc
     end
 
-(* uiss <hash> <index> <blinding nonce> <entropy field> <va> <vbfa> <ka> <hastoken> [<vt> <vbft> <kt>] <tokenfield-if-not-blinded>
-        <ops> <nkeys> keys.. <oracle> *)
+(* uiss <hash> <index> <blinding nonce> <entropy field> <va> <vbfa> <ka> <hastoken> [<vt> <vbft> <kt>] <tokenfield-if-not-ub_blinded>
+        <ops> <nkeys> keys.. <ub_oracle> *)
 let cmd_uiss t =
   let hash = next_hex t in let index = next_hn t in
   let bnonce = next_hex t in let entropy = next_hex t in
@@ -123,13 +123,13 @@ let cmd_uiss t =
       let inp = { in0 with in_hash = f.(5); in_iss = Some iss; in_irp = f.(2); in_inrp = f.(3) } in
       let head = Printf.sprintf "aid=%s tid=%s blind=ok aamt=%s tamt=%s arp=%s trp=%s" (hex_of_bytes aid) (hex_of_bytes tid)
           (hex_of_bytes ba.bl_value) (hex_of_bytes bt.bl_value) (hex_of_bytes ba.bl_proof) (hex_of_bytes bt.bl_proof) in
-      let pu (p : string) (u : unblinded) =
+      let pu (p : string) (u : unb_result) =
         Printf.sprintf "%sv=%s %sa=%s %svbf=%s %sabf=%s" p (hex_of_n u.u_value) p (hex_of_bytes u.u_asset)
           p (hex_of_bytes u.u_vbf) p (hex_of_bytes u.u_abf) in
       match o_unblind_issuance tb inp keys with
-      | RErr -> Printf.printf "%s res=err\n" head
-      | RPanic -> Printf.printf "%s res=panic\n" head
-      | ROk (ua, None) -> Printf.printf "%s res=ok %s tok=0\n" head (pu "a" ua)
-      | ROk (ua, Some ut) -> Printf.printf "%s res=ok %s tok=1 %s\n" head (pu "a" ua) (pu "t" ut)
+      | UErr -> Printf.printf "%s ures=err\n" head
+      | UPanic -> Printf.printf "%s ures=panic\n" head
+      | UOk (ua, None) -> Printf.printf "%s ures=ok %s tok=0\n" head (pu "a" ua)
+      | UOk (ua, Some ut) -> Printf.printf "%s ures=ok %s tok=1 %s\n" head (pu "a" ua) (pu "t" ut)
 
 let () = register "ubl" cmd_ubl; register "uiss" cmd_uiss
